@@ -298,6 +298,7 @@ def history_cases() -> Any:
     op = st.one_of(st.tuples(st.just("msg"), st.sampled_from(["ok", "ok", "fail", "nores", "retry_fail"])).map(list),
                    st.tuples(st.just("msg"), st.sampled_from(["ok", "fail"])).map(list),
                    st.tuples(st.just("burst"), st.integers(2, 4)).map(list),
+                   st.tuples(st.just("restart"), st.just(None)).map(list),
                    st.tuples(st.just("add"), mw).map(list))
     # optionally the bundled retry middleware sits somewhere in the initial stack: its re-send is a send like any other
     return st.fixed_dictionaries({"history": st.just(True), "initial": st.lists(mw, max_size=2), "ops": st.lists(op, min_size=2, max_size=9),
@@ -395,6 +396,11 @@ def run_history(c: Dict[str, Any]) -> Outcome:
                 else:
                     b.add_middlewares(make_mw(idx, arg))
                 late = late or nmsg > 0
+                continue
+            if op == "restart":
+                # the application stops and starts the SAME broker object again (a test fixture, a lifespan restart): its stack is what it was
+                await b.shutdown()
+                await b.startup()
                 continue
             if op == "burst":
                 # ONE kicker object (task.kicker().with_labels(...) kept around) used for several sends that are in flight together
